@@ -145,6 +145,17 @@ def run(cx):
                 cx.check('C13.P2', bool(re.search(r'set_signature\(.*,TSigResponseContext::sign\(.*\)@Ok\.0\)$', s.term)), f.path, s.key(), 'signature-is-sign-result', s.term[-160:], s.loc)
             for s in sg:
                 cx.check('C13.P2', bool(re.search(r'^TSigResponseContext::sign\(.*,Vec::with_capacity\(512\)\)$', s.term)), f.path, s.key(), 'signs-the-encoded-response-buffer', s.term[-120:], s.loc)
+            # the MAC is computed over a SECOND encoding of the reply (tbs_response): it verifies at the client only if that copy is
+            # the reply that is sent - same builder inputs, same header constructor with the same arguments, same response code
+            bn = cx.calls(f, r'MessageResponseBuilder<.*>::build_no_records$|MessageResponseBuilder::build_no_records$')
+            cx.check('C13.P2', len(bn) == 2 and bn[0].term == bn[1].term, f.path, 'calls', 'signed-copy-built-like-the-sent-reply', '; '.join(x.term[:120] for x in bn))
+            mk = [x for x in cx.calls(f, r'Metadata::\w+$') if not x.label.endswith('::fields') and 'Callsite' not in x.term]
+            cx.check('C13.P2', len(mk) == 2 and mk[0].term == mk[1].term and mk[0].label == mk[1].label, f.path, 'calls', 'signed-header=sent-header(same constructor, same arguments)',
+                     '; '.join(f'{x.label}: {x.term[:100]}' for x in mk), mk[0].loc if mk else '')
+            rc = [shorten(f.term_operand(f.blocks[w[1]]['s'][w[2]][2][1])) for w in writers(cx.prog, r'Metadata$', r'^response_code$') if w[0] is f and w[4] == 'store' and w[2] is not None]
+            cx.check('C13.P2', len(rc) == 2 and rc[0] == rc[1], f.path, 'stores', 'signed-rcode=sent-rcode', f'{len(rc)} stores')
+            other = [w[3] for w in writers(cx.prog, r'op::(header|message)::Metadata$|Metadata$', None) if w[0] is f and w[4] in ('store', 'mutref') and not w[3].endswith('.response_code')]
+            cx.check('C13.P2', not other, f.path, 'stores', 'no-other-header-field-set-on-one-copy-only', ', '.join(other))
             sf = [s for s in cx.calls(f, r'catalog::send_error_response$') if 'ResponseCode::ServFail' in s.term and cx.has_guard(s, r'^!ok\(TSigResponseContext::sign\(')]
             cx.check('C13.P2', len(sf) == 1, f.path, 'calls', 'sign-failure-is-ServFail', str(len(sf)))
     g = cx.fn('C13.P2', 'hickory_proto::rr::tsig::TSigResponseContext::sign')
